@@ -32,10 +32,11 @@ CLAIMED = {
         'text': 'Seeded search over simulated histories of one or two CliffordCircuit objects: interleaved appends (aliases, numpy-int indices, scheduler-scripted random gates, '
                 'append bursts), tableau / apply / automorphism / export / compose / num_qubit queries, rejected calls, deep copies, pickle round trips and forks that stay in use, '
                 'cache wipes and re-sized memo tables, KeyboardInterrupt/MemoryError injected (sys.monitoring) at function entries, loop back-edges and returns of numqi code, '
-                'long-lived processes; every observation is checked against an independent dense reference model with a candidate-set relaxation after faults, arrays handed out '
+                'long-lived processes, two caller threads that query their own circuits concurrently with every hand-over chosen by the scheduler (real threads, one baton, '
+                'pre-emption points at numqi function entries/back-edges/returns), registers of up to 16 qubits checked against the relabelled compact circuit; every observation is checked against an independent dense reference model with a candidate-set relaxation after faults, arrays handed out '
                 'earlier are re-checked after every later operation. Exploration is the right level: the property quantifies over unbounded histories; a clean batch is evidence, not proof.',
-        'note': 'trusted: the dense model (models/dense_pauli.py), numpy; assumed: single-threaded use, callers do not mutate returned tableaux; n<=7 qubits, <=60 ops per run, <=5 qubits for the unitary->tableau oracle',
-        'technique': 'deterministic simulation with fault injection: seeded history/fault scheduler + dense reference-model oracle + ddmin replay files',
+        'note': 'trusted: the dense model (models/dense_pauli.py), numpy; assumed: a circuit object is used by one thread at a time (threads share only numqi module state), callers do not mutate returned tableaux; dense model n<=7 qubits (<=5 touched qubits on registers up to 16), <=60 ops per run, <=5 qubits for the unitary->tableau oracle',
+        'technique': 'deterministic simulation with fault injection: seeded history/fault/thread-interleaving scheduler + dense reference-model oracle + ddmin replay files',
     },
     'C10': {
         'design_ref': 'DESIGN.md §4, §8',
@@ -53,7 +54,7 @@ CLAIMED = {
                 'every qubit subset (all 120 (n<=6, subset) pairs are stratified into quick; outcomes down to probability 1e-24) is reachable and chained (re-measure, nested, overlapping), '
                 'with sweeps of the library\'s own sampler, shared gate objects via extend_circuit, shifts, classical-control and probe custom gates, the torch wrapper, re-used input buffers, '
                 'cache wipes and injected exceptions inside runs; the model predicts each gate\'s outcome and every record, final state, caller-owned input and earlier result is checked against a bit-mask Born-rule model.',
-        'note': 'trusted: the bit-mask Born model (models/born.py); complex128/float64 states, n<=6 qubits, tolerance 1e-9 absolute and 1e-6 relative; sharing a MeasureGate across a shift is unspecified in numqi and not exercised',
+        'note': 'trusted: the bit-mask Born model (models/born.py); complex128/float64 states, n<=6 qubits, tolerance 1e-9 absolute and 1e-6 relative; shifting a circuit that holds one MeasureGate object several times may be refused (AssertionError, circuit dropped) or must shift every occurrence by delta',
         'technique': 'deterministic simulation with fault injection: scheduler-scripted measurement outcomes + Born-rule reference model + fault injection inside circuit runs',
     },
 }
@@ -95,7 +96,7 @@ def main():
             'add_only': True,
         },
         'engines': [{'name': 'simkit', 'path': '/verif/simkit', 'serves_properties': claimed,
-                     'kind_free_text': 'deterministic simulator: seeded plan generator, seams for entropy/clock/caches/global RNGs, settrace fault injector, reference-model oracles, ddmin shrinker, replay files'}],
+                     'kind_free_text': 'deterministic simulator: seeded plan generator, seams for entropy/clock/caches/global RNGs, sys.monitoring fault injector and baton-passing thread interleaver, reference-model oracles, ddmin shrinker, replay files'}],
         'checks': checks,
         'not_applicable': na,
         'notes': 'See DESIGN.md (§0 verdicts, §8 as built) and README.md. 17 of 20 properties are pure functions of their inputs and are not simulation targets; C07, C10, C11 are simulated. Four genuine defects found on the unchanged tree were repaired by fix: commits in /repo and are listed as fixed entries in known_findings.json (they suppress nothing). selftest/ holds the determinism and sensitivity self-tests with their last results; seeded/ holds 93 independently written breakages and what caught them.',
